@@ -39,6 +39,7 @@ FUNCS = [
     ("ubxmessage.py", "UBXMessage._do_len_checksum"), ("ubxmessage.py", "UBXMessage.serialize"),
     ("ubxmessage.py", "UBXMessage.length"), ("ubxmessage.py", "UBXMessage.payload"),
     ("ubxmessage.py", "UBXMessage._set_attribute_bits"), ("ubxmessage.py", "UBXMessage._set_attribute_bitfield"),
+    ("ubxmessage.py", "UBXMessage._set_attribute_cfgval"),
     ("ubxmessage.py", "UBXMessage.msg_cls"), ("ubxmessage.py", "UBXMessage.msg_id"), ("ubxmessage.py", "UBXMessage.msgmode"),
 ]
 
